@@ -131,7 +131,7 @@ def generate(rng, tier):
         key = rng.choice(far)
         w, S, L = key[0], key[1], key[4]
         i = min(lmax(L), rng.randrange(1 << 14, 1 << 16) if quick else rng.randrange(1 << 14, (1 << 21) // w))
-        n = i + 1 + rng.randrange(2)
+        n = min(i + 1 + rng.randrange(2), lmax(L) + 1)
         nb = slots_needed(n, w, S) * S // 8
         yield elem_case(key, 0, i, rng.getrandbits(w), n, rng.getrandbits(8 * nb))
     # 4. operation sequences
@@ -249,7 +249,7 @@ def o_elem(args, c):
     B = from_hex(args[9])
     A = from_hex(c["arr"])
     nb = (len(args[9]) - 1) // 2
-    n = (nb * 8) // w
+    n = min((nb * 8) // w, lmax(int(args[4])) + 1)
     lo = i * w
     cur = (B >> lo) & m
     if op == 0:
